@@ -25,7 +25,7 @@ Inductive sval :=
 Definition header_key (n : N) : string := "/h/" ++ dec n.      (* getHeaderKey *)
 Definition data_key (n : N) : string := "/d/" ++ dec n.        (* getDataKey *)
 Definition sig_key (n : N) : string := "/c/" ++ dec n.         (* getSignatureKey *)
-Definition index_key (h : string) : string := "/i/" ++ hex h.  (* getIndexKey: hash.String() is lowercase hex *)
+Definition index_key (h : string) : string := "/i/" ++ hex h.  (* getIndexKey: hash.String() is uppercase hex (go-header Hash) *)
 Definition state_key : string := "/s".                         (* ds.NewKey("s") *)
 Definition height_key : string := "/t".                        (* getHeightKey *)
 Definition meta_key (k : string) : string := "/m/" ++ k.       (* getMetaKey; path.Clean is the identity on clean keys *)
